@@ -50,3 +50,11 @@ Theorem C07_no_test_acts : forall g start hops s st off c, gfind g s = Some st -
   at_eoi g true start (S hops) s off c = Acted (record st off c) off \/
   at_eoi g true start (S hops) s off c = RetNone false.
 Proof. exact no_test_acts. Qed.
+
+(* For definitions without look-around assertions the strict certificate is required: a determined state
+   does not carry the partial-mode test at all, so (C07_no_test_acts) it acts at the end of the buffer —
+   the item is yielded as soon as it is determined, not one byte later. *)
+Theorem C07_prompt_strict : forall d g V R s q st, prompt_strict_ok d g V R = true ->
+  inV V s q = true -> gfind g s = Some st -> determined d R q = true ->
+  partial_mode_test st = false.
+Proof. exact prompt_strict. Qed.
